@@ -109,10 +109,28 @@ func runC04(c *Ctx) {
 		one(0, "replay", replayInput)
 		return
 	}
+	// model tie: the Lean models carry every Go panic site explicitly (Model/Lines, Model/Blocks, Model/Inlines); the
+	// whole-Parse model, the per-root inline model and - on synthetic roots outside the block phase's range, where Go
+	// does panic - the panic flag itself are compared with the implementation
+	corr := &Batch{c: c}
+	defer corr.Flush()
 	docStream(c.Seed, "c04", c.N(40000, 1000000), true, func(idx int, kind string, doc []byte) bool {
 		one(idx, kind, doc)
+		if idx%5 == 0 && len(doc) <= 4000 {
+			parseCorr(c, corr, doc)
+			c.fam("model-tie", "inline-ops", inlineCorr(c, corr, doc))
+			if idx%10 == 5 {
+				c.fam("model-tie", "synthetic-root-ops", synthCorr(c, corr, newRng(c.Seed, "c04-synth-doc", idx), doc))
+			}
+		}
 		return true
 	})
+	for i, n := 0, c.N(4000, 100000); i < n; i++ {
+		d := genStress(newRng(c.Seed, "c04-stress", i))
+		one(i, "inline-stress", d)
+		c.fam("model-tie", "inline-ops", inlineCorr(c, corr, d))
+		c.fam("model-tie", "synthetic-root-ops", synthCorr(c, corr, newRng(c.Seed, "c04-synth", i), d))
+	}
 	for i, d := range chunkBoundaryDocs() {
 		one(i, "chunk-boundary", d)
 	}
